@@ -528,6 +528,7 @@ func (d *Driver) runPath(job *Job, prefix []int64, tc *TermCtx, solver *Solver, 
 		reached: map[string]bool{}, poolItems: map[*Object][]Value{}, mutexes: map[string]int{}, strConst: map[string]*Object{},
 	}
 	res = &PathResult{Job: job}
+	tc.ResetFacts()
 	func() {
 		defer func() {
 			if r := recover(); r != nil {
